@@ -111,6 +111,9 @@ class TableWorld:
     def call(self, nm, e, it):
         if nm == 'cast':
             return it.ev(e[2][0])
+        if nm == 'size' and it.ev(e[2][0]) in (8500, 8501):
+            # the key / value types' own sizes: the slot sizes are these rounded up to whole words, so they are a little smaller
+            return KSIZE - 3 if it.ev(e[2][0]) == 8500 else VSIZE - 5
         if nm == 'hash':
             c = self.content(it.ev(e[2][0]))
             kid = c[1] - 4000 if c[0] == 'ext' else c[1]
